@@ -113,6 +113,8 @@ def call_path(I, path, args, e, env, arg_nodes=None, ci=None):
     ci = ci or {}
     node = e or {}
     hook = I.hooks.get(path)
+    if hook is None and path in I.F.fns:
+        hook = I.hooks_canon.get(FX.canon_path(path))
     local = path in I.F.fns
     if hook is not None:
         if args is None:
